@@ -225,6 +225,8 @@ def evaluate(ctx, cases, tagsl):
 
 def shrink(c):
     """reduce an array case to a single scalar pair when that still shows a disagreement"""
+    if "history" in c:
+        return c
     a, b = c["a"], c["b"]
     if a["shape"] != b["shape"] or len(a["v"]) <= 1:
         return c
@@ -236,6 +238,35 @@ def shrink(c):
                 predio.oracle_fuzzy_f64(c2["rel"], c2["abs"], c2["a"], c2["b"]):
             return c2
     return c
+
+
+def reused_dynamic_tolerances(ctx, n):
+    """tolerances 'computed from the data' (ScaledTolerance) held by ONE predicate object that is evaluated on several
+    fields of different magnitude, as the CLI does with `-atol <t>*max`: every single verdict must still be the
+    documented formula with t * max|.| of THAT pair"""
+    rng = ctx.rng
+    for _ in range(n):
+        base = rng.choice([1e-12, 1e-6, 2.0 ** -20, 1e-3, 0.25])
+        rel = rng.choice(RELS[:12])
+        comp = rng.random() < 0.3
+        abs_t = ["scomp", base] if comp else ["scaled", base]
+        pred = predio.make_pred("fuzzy", ["num", rel], abs_t)
+        hist = []
+        for k in range(rng.randint(2, 4)):
+            c, tags = gen_array_case(rng)
+            # keep shapes that the per-component mode accepts; operands must be non-empty for a dynamic tolerance
+            if not c["a"]["v"] or c["a"]["shape"] != c["b"]["shape"]:
+                continue
+            c = dict(c, rel=["num", rel], abs=abs_t)
+            impl = predio.run_impl("fuzzy", c["rel"], c["abs"], c["a"], c["b"], pred=pred)
+            hist.append({"a": c["a"], "b": c["b"]})
+            orc = predio.oracle_fuzzy_f64(c["rel"], c["abs"], c["a"], c["b"])
+            ctx.case(("reuse", k, c["rel"], c["abs"], c["a"], c["b"]), nontrivial=is_nontrivial(c),
+                     tags=["reused-dynamic-tol", f"use-{k}", "verdict-" + impl], sample=None)
+            if orc in ("T", "F") and impl != orc:
+                ctx.violation(dict(c, reused_predicate_use=k, history=list(hist)), impl, orc, cls=None,
+                              what="verdict of a REUSED predicate with a data-computed tolerance differs from the "
+                                   "documented formula (use number %d of the same object)" % k)
 
 
 def run(ctx):
@@ -262,6 +293,7 @@ def run(ctx):
     CH = 5000
     for i in range(0, len(cases), CH):
         evaluate(ctx, cases[i:i + CH], tagsl[i:i + CH])
+    reused_dynamic_tolerances(ctx, ctx.scale(150, 6000))
     ctx.spec_viol = [dict(v, case=shrink(v["case"])) for v in ctx.spec_viol[:50]]
 
 
@@ -274,6 +306,18 @@ def replay_witness(ctx, entry):
 
 def replay(ctx, payload):
     c = payload["case"]
+    if "history" in c:
+        # one predicate object evaluated on the recorded fields in order; the last verdict is the one in question
+        pred = predio.make_pred(c["kind"], c["rel"], c["abs"])
+        impl = None
+        for h in c["history"]:
+            impl = predio.run_impl(c["kind"], c["rel"], c["abs"], h["a"], h["b"], pred=pred)
+        orc = predio.oracle_fuzzy_f64(c["rel"], c["abs"], c["a"], c["b"])
+        print(f"replay (reused predicate, {len(c['history'])} evaluations): impl={impl} documented-formula={orc}")
+        if impl != orc:
+            print(f"VIOLATION property=C01 replay={payload.get('_path', '<replay>')}")
+            return 1
+        return 0
     impl = predio.run_impl(c["kind"], c["rel"], c["abs"], c["a"], c["b"])
     orc = predio.oracle_fuzzy_f64(c["rel"], c["abs"], c["a"], c["b"])
     print(f"replay: impl={impl} documented-formula={orc}")
